@@ -2,19 +2,10 @@ import TinyVerif.Proofs.DlIndSeg
 /-!
 # The functions that change the segment list / talk to the OS (tag `sg_`)
 
-`sys_alloc_Spec'` (= `sys_alloc_Spec` of `DlIndSpec.lean` with the mmap contract strengthened to page
-alignment, `OsOk'`), `release_unused_segments_Spec`, `sys_trim_Spec`.
+`sys_alloc_Spec` (the mmap contract `OsOk` includes page alignment: `segsOk` of a new segment needs it),
+`release_unused_segments_Spec`, `sys_trim_Spec` of `DlIndSpec.lean`.
 -/
 namespace TinyVerif.Dl
-
-/-- the mmap contract with page alignment (what `segsOk` of a new segment needs; the real `mmap` returns
-page-aligned addresses) -/
-def OsOk' (s : St) (len : Nat) : Prop :=
-  ∀ tbase q, s.osq = .m (some tbase) :: q → OsFresh s tbase len ∧ tbase % 4096 = 0
-
-def sys_alloc_Spec' : Prop :=
-  ∀ {s s' : St} (_ : SInv s) {nb mem : Nat}, NbOk nb → OsOk' s (sysLen nb) → sys_alloc s nb = .ok (s', mem) →
-    SInv s' ∧ (mem ≠ 0 → Alloc s s' nb mem) ∧ (mem = 0 → SameUsers s s')
 
 /-- the size of the mapping: a multiple of the granularity with room for the request, the foot and alignment -/
 theorem sg_sysLen {nb : Nat} (hnb : NbOk nb) : sysLen nb % 65536 = 0 ∧ nb + 96 ≤ sysLen nb ∧ sysLen nb < nb + 96 + 65536 := by
@@ -228,7 +219,7 @@ def sg_place_Spec : Prop :=
     (_ : nb + 96 ≤ tsize) {r : Sum St (St × Nat)}, sys_alloc_place s0 tbase tsize nb = .ok r → SgPlaceRes s nb r
 
 /-- `sys_alloc` from its middle part: the OS call, the footprint update, the common tail -/
-theorem sg_sys_alloc_of_place (hpl : sg_place_Spec) : sys_alloc_Spec' := by
+theorem sg_sys_alloc_of_place (hpl : sg_place_Spec) : sys_alloc_Spec := by
   intro s s' hi nb mem hnb hos h
   unfold sys_alloc at h
   dsimp only at h
@@ -1012,5 +1003,417 @@ theorem sg_addseg_freeListOk {s : St} (w : WFS s) (htn : s.h.top ≠ 0) {H : Hea
   · intro a
     rw [hfl.mem_iff, hfree a]
     simp only [List.mem_cons, List.mem_append, hRfree a]
+
+theorem sg_segs_of_top {s : St} (w : WFS s) (htn : s.h.top ≠ 0) : ∃ g, g ∈ s.segs := by
+  have ht := w.top
+  unfold topOk at ht
+  cases hs : s.segs with
+  | nil =>
+    rw [hs] at ht
+    simp only [Bool.and_eq_true, decide_eq_true_eq] at ht
+    exact absurd ht.1.1.1 htn
+  | cons g r => exact ⟨g, List.mem_cons_self⟩
+
+theorem sg_addseg_memA (E0 : List Ent) (z : Ent) (top topsize oe tbase tsize g0b pfR pfX : Nat)
+    (hside : tbase + tsize ≤ g0b ∨ oe ≤ tbase) (hgb : g0b ≤ top) (hoe : top + topsize + 80 = oe)
+    (h32 : 32 ≤ topsize) (hts : 96 ≤ tsize) :
+    (z = { addr := top + topsize, size := 48, cin := true, pin := false, pfoot := topsize } ∨
+      (z = { addr := top, size := topsize, cin := false, pin := true, pfoot := pfX } ∨
+        (z = { addr := top + topsize, size := 48, cin := true, pin := false, pfoot := pfR } ∨
+          (z = { addr := tbase, size := tsize - 80, cin := false, pin := true, pfoot := 0 } ∨
+            z = { addr := tbase + (tsize - 80), size := 80, cin := false, pin := false, pfoot := 0 } ∨
+            z = { addr := top + topsize, size := 48, cin := true, pin := true, pfoot := pfR } ∨
+            (z = { addr := top + topsize + 48, size := 8, cin := true, pin := true, pfoot := 0 } ∨
+              z = { addr := top + topsize + 48 + 8, size := 8, cin := true, pin := true, pfoot := 0 } ∨
+              z = { addr := top + topsize + 48 + 8 + 8, size := 8, cin := true, pin := true, pfoot := 0 }) ∨
+            z ∈ E0 ∧ (z.addr < top + topsize ∨ oe ≤ z.addr)) ∧ z.addr ≠ top + topsize) ∧
+        (z.addr < top ∨ top + topsize ≤ z.addr)) ∧ z.addr ≠ top + topsize) ↔
+    (z = { addr := tbase, size := tsize - 80, cin := false, pin := true, pfoot := 0 } ∨
+      z = { addr := tbase + (tsize - 80), size := 80, cin := false, pin := false, pfoot := 0 } ∨
+      (z = { addr := top, size := topsize, cin := false, pin := true, pfoot := pfX } ∨
+        z = { addr := top + topsize, size := 48, cin := true, pin := false, pfoot := topsize } ∨
+        z = { addr := top + topsize + 48, size := 8, cin := true, pin := true, pfoot := 0 } ∨
+        z = { addr := top + topsize + 48 + 8, size := 8, cin := true, pin := true, pfoot := 0 } ∨
+        z = { addr := top + topsize + 48 + 8 + 8, size := 8, cin := true, pin := true, pfoot := 0 }) ∨
+      z ∈ E0 ∧ (z.addr < top ∨ oe ≤ z.addr)) := by
+  grind
+
+theorem sg_add_segment {s : St} (hi : SInv s) (htn : s.h.top ≠ 0) {tbase tsize : Nat} (hf : SgFresh s tbase tsize)
+    (hsz : 96 ≤ tsize) {q0 : List OsDir} {ev0 : List OsEv} {fp0 mf0 la0 : Nat}
+    (hla0 : la0 ≤ tbase ∧ la0 ≤ s.least_addr) {s' : St}
+    (h : add_segment { s with osq := q0, evs := ev0, footprint := fp0, maxfp := mf0, least_addr := la0 } tbase tsize = .ok s') :
+    SInv s' ∧ SameUsers s s' := by
+  have w := hi.wfs
+  obtain ⟨gg, hgg⟩ := sg_segs_of_top w htn
+  obtain ⟨g0, rest, pre, x, f, post, hsegs, hes, hxa, hxf, hxs, hfa, hfc, hfp, hfs, hgb, hgt, htop0, hgx, hgf⟩ :=
+    w.top_parts (w.topsize_ne hgg)
+  have hes' : s.h.ents = pre ++ [x, f] ++ post := by rw [hes]; simp
+  have hg0 : g0 ∈ s.segs := by rw [hsegs]; exact List.mem_cons_self
+  obtain ⟨d1, d2, d3⟩ := sg_segsOk_cons w.segs hsegs
+  have hd0 := d3 g0 List.mem_cons_self
+  have hxm : x ∈ s.h.ents := by rw [hes]; simp
+  obtain ⟨hxc, hxp⟩ := isFree_iff.1 hxf
+  obtain ⟨hx16, hxs16, hxs16'⟩ := shapeOk_free w.shape hxm hxc
+  obtain ⟨_, hpos, hlim, hfr⟩ := hf.fresh
+  have hfm : f ∈ s.h.ents := by rw [hes]; simp
+  have hok0 := w.ents
+  rw [hes] at hok0
+  obtain ⟨o1, o2, o3, o4, o5⟩ := entsOk_mid2 hok0
+  have hout : ∀ z ∈ s.h.ents, z.addr < s.h.top ∨ z.addr = s.h.top ∨ z = f ∨ g0.base + g0.size ≤ z.addr := by
+    intro z hz
+    rw [hes] at hz
+    simp only [List.mem_append, List.mem_cons] at hz
+    rcases hz with h | h | h | h
+    · have := o1 z h; omega
+    · subst h; exact Or.inr (Or.inl hxa)
+    · exact Or.inr (Or.inr (Or.inl h))
+    · have := o5 z h; omega
+  have hfresh := sg_fresh_ents w hfr
+  have hnew : ∀ e ∈ s.h.ents, e.addr ≠ tbase := by
+    intro e he hea
+    have := entsOk_pos w.ents e he
+    rcases hfresh e he with h | h <;> omega
+  unfold add_segment at h
+  dsimp only at h
+  split at h
+  · msimp at h
+  · rename_i oldsp hsh
+    obtain ⟨hsp, hsph⟩ := sg_segment_holding hsh
+    have hspx : inSeg oldsp x = true := by
+      unfold Seg.holds Seg.top at hsph
+      simp only [Bool.and_eq_true, decide_eq_true_eq] at hsph
+      rw [inSeg_iff]; omega
+    have : g0 = oldsp := (sg_seg_unique w.segsDisjoint hsp hg0 hspx hgx).symm
+    subst this
+    unfold Seg.top at h
+    rw [sg_addseg_csp (top := s.h.top) (topsize := s.h.topsize) (by omega) (by omega) (by omega) (by omega) (by omega)] at h
+    simp only [sg_pad_seg, SIZEOF_USIZE_eq, MALLOC_ALIGNMENT_eq, MEM_OFFSET_eq, top_foot_size_eq] at h
+    msimp at h
+    obtain ⟨_, _, _, _, s1, hinit, _, _, h1, eR, ⟨h2, nf⟩, eF, _, hnf, h3, eO, hs'⟩ := h
+    unfold set_size_and_pinuse_of_inuse_chunk at eR
+    by_cases hsm : s.h.topsize < 32
+    · -- the old `top` has 16 bytes: the record chunk takes its place
+      simp only [if_pos hsm] at eR eF eO hs'
+      have hts16 : s.h.topsize = 16 := by omega
+      obtain ⟨p1, p2, p3, p4, pfR, p5⟩ := sg_addseg_pre (S := { s with osq := q0, evs := ev0, footprint := fp0, maxfp := mf0, least_addr := la0 })
+        w rfl hsegs hes' hxa hxs (by omega) hfa hfs hgb hgt hfr hf.page hlim (by have := hf.gran; omega) hsz hinit
+        (csp := s.h.top) (Or.inr ⟨rfl, hts16⟩) eR eF
+      have hk : (g0.base + g0.size - (s.h.top + 48)) / 8 - 1 = 5 := by omega
+      rw [hk] at p5
+      unfold add_segment_oldtop at eO
+      dsimp only at eO
+      rw [if_neg (by simp)] at eO
+      msimp at eO
+      subst eO
+      have hs1segs : s1.segs = g0 :: rest := by rw [p1]; exact hsegs
+      rw [hs1segs] at hs'
+      subst hs'
+      refine sg_addseg_core hi hsegs hes' hxa hxf hxs hfa hfc hfp hfs hgb hgt hfr hf.page hpos hlim
+        (by have := hf.gran; omega) hsz
+        (X := { addr := tbase, size := tsize - 80, cin := false, pin := true, pfoot := 0 })
+        (F := { addr := tbase + (tsize - 80), size := 80, cin := false, pin := false, pfoot := 0 })
+        rfl rfl rfl rfl rfl rfl rfl rfl (csp := s.h.top)
+        (m' := { addr := s.h.top, size := 48, cin := true, pin := true, pfoot := pfR })
+        (ms' := sgFenceList 5 (s.h.top + 48))
+        ?wc ?wend ?wlast ?wshape ?whead ?wtags ?wclass ?wfence ?wrec ?wcsp ?wm8 ?hok ?hmem rfl ?htop ?htops ?hdv ?hdvs ?hla
+        ?hfl ?hsb ?htb
+      case wc => simp [contig, sgFenceList, Nat.add_assoc]
+      case wend => simp only [endE, lastE, sgFenceList]; omega
+      case wlast => simp [lastE, sgFenceList]
+      case wshape =>
+        simp only [shapeOk, sgFenceList, List.all_cons, List.all_nil, Bool.and_true, Bool.and_eq_true, Bool.or_eq_true,
+          decide_eq_true_eq]
+        refine ⟨Or.inr ⟨⟨by omega, trivial⟩, by omega⟩, ?_⟩
+        simp
+      case whead => exact ⟨by simp [hxp], fun h => by rw [hxp] at h; cases h⟩
+      case wtags => simp [tagsFrom, linkOk, isFree, sgFenceList]
+      case wclass =>
+        intro e he
+        simp only [sgFenceList, List.mem_cons, List.not_mem_nil, or_false] at he
+        rcases he with rfl | rfl | rfl | rfl | rfl | rfl <;> simp
+      case wfence =>
+        intro a ha b _ _ _
+        simp only [sgFenceList, List.mem_cons, List.not_mem_nil, or_false] at ha
+        rcases ha with rfl | rfl | rfl | rfl | rfl | rfl <;> simp
+      case wrec => exact ⟨_, List.mem_cons_self, rfl, rfl⟩
+      case wcsp => exact ⟨Nat.le_refl _, by omega⟩
+      case wm8 => simp
+      case hok => exact p3
+      case hmem =>
+        intro z
+        show z ∈ h2.ents ↔ _
+        rw [p5 z]
+        simp only [List.mem_cons]
+        grind
+      case htop => show h2.top = tbase; rw [p2]
+      case htops => show h2.topsize = tsize - 80; rw [p2]
+      case hdv => show h2.dv = s.h.dv; rw [p2]
+      case hdvs => show h2.dvsize = s.h.dvsize; rw [p2]
+      case hla => show s1.least_addr ≤ tbase ∧ s1.least_addr ≤ s.least_addr; rw [p1]; exact hla0
+      all_goals
+        have hkeep : ∀ z ∈ s.h.ents, (z.addr < s.h.top ∨ g0.base + g0.size ≤ z.addr) → z ∈ h2.ents :=
+          fun z hz hc => (p5 z).2 (Or.inr (Or.inr (Or.inr (Or.inr ⟨hz, hc⟩))))
+        have hfk := sg_addseg_keep w p3 hfm hfa hfp (by omega) hout hkeep
+      case hfl =>
+        refine sg_addseg_freeListOk w htn (H := h2.tag "addseg-oldtop-consumed") p3 (by omega) hnew ?_ ?_ (B := [])
+          (Or.inl rfl) ?_ ?_
+        · show h2.top = tbase; rw [p2]
+        · show h2.dv = s.h.dv; rw [p2]
+        · rw [List.nil_append, binned_congr (h := s.h) (by show h2.sbins = _; rw [p2]) (by show h2.tbins = _; rw [p2])]
+        · intro a
+          show a ∈ freeSet h2.ents ↔ _
+          simp only [List.not_mem_nil, false_or]
+          rw [mem_freeSet, mem_freeSet]
+          constructor
+          · rintro ⟨e, he, hfe, hea⟩
+            rcases (p5 e).1 he with h | h | h | h | h
+            · left; rw [← hea, h]
+            · rw [h] at hfe; simp [isFree] at hfe
+            · rw [h] at hfe; simp [isFree] at hfe
+            · obtain ⟨i, _, hi⟩ := sg_mem_fenceList.1 h
+              rw [hi] at hfe; simp [isFree] at hfe
+            · right; exact ⟨⟨e, h.1, hfe, hea⟩, by omega⟩
+          · rintro (h | ⟨⟨e, he, hfe, hea⟩, hne⟩)
+            · exact ⟨_, (p5 _).2 (Or.inl rfl), by simp [isFree], h.symm⟩
+            · refine ⟨e, hkeep e he ?_, hfe, hea⟩
+              rcases hout e he with h | h | h | h
+              · exact Or.inl h
+              · omega
+              · subst h; simp [isFree, hfp] at hfe
+              · exact Or.inr h
+      case hsb =>
+        refine sbinsOk_frame (h := s.h) w.sbins (by show h2.sbins = _; rw [p2]) ?_
+        intro a ha
+        have hb : a ∈ binned s.h := List.mem_append.2 (Or.inl ha)
+        exact hfk a (mem_freeList_of_binned hb) (w.binned_free hb).2.1
+      case htb =>
+        refine tbinsOk_frame (h := s.h) w.tbins (by show h2.tbins = _; rw [p2]) ?_
+        intro a ha
+        have hb : a ∈ binned s.h := List.mem_append.2 (Or.inr ha)
+        exact hfk a (mem_freeList_of_binned hb) (w.binned_free hb).2.1
+    · -- the old `top` has at least 32 bytes: it is binned, the record chunk replaces its foot word
+      simp only [if_neg hsm] at eR eF eO hs'
+      obtain ⟨p1, p2, p3, p4, pfR, p5⟩ := sg_addseg_pre (S := { s with osq := q0, evs := ev0, footprint := fp0, maxfp := mf0, least_addr := la0 })
+        w rfl hsegs hes' hxa hxs (by omega) hfa hfs hgb hgt hfr hf.page hlim (by have := hf.gran; omega) hsz hinit
+        (csp := s.h.top + s.h.topsize) (Or.inl ⟨rfl, by omega⟩) eR eF
+      have hk : (g0.base + g0.size - (s.h.top + s.h.topsize + 48)) / 8 - 1 = 3 := by omega
+      rw [hk] at p5
+      unfold add_segment_oldtop at eO
+      dsimp only at eO
+      rw [if_pos (by omega), Nat.add_sub_cancel_left] at eO
+      msimp at eO
+      obtain ⟨h3a, eSF, eIns⟩ := eO
+      unfold set_free_with_pinuse set_size_and_pinuse_of_free_chunk at eSF
+      msimp at eSF
+      obtain ⟨hc, eC, hw, eW, eS⟩ := eSF
+      -- clear PINUSE of the record chunk
+      obtain ⟨c1, c2, c3⟩ := sg_clearPin_tab eC p3
+        (x := { addr := s.h.top + s.h.topsize, size := 48, cin := true, pin := true, pfoot := pfR })
+        ((p5 _).2 (Or.inr (Or.inr (Or.inl rfl)))) rfl
+      -- the header of the old `top`, now an ordinary free chunk
+      have hold2 : ∀ z ∈ s.h.ents, z.addr < s.h.top → z.addr + z.size ≤ s.h.top := by
+        intro z hz hlt
+        have := entsOk_sep w.ents z hz x hxm (by omega)
+        omega
+      have hside := hfr g0 hg0
+      obtain ⟨w1, w2, w3⟩ := sg_writeHead_tab eW c2 (by omega) (by
+        intro y hy hlt
+        rcases (c3 y).1 hy with h | ⟨h, _⟩
+        · subst h; simp only at hlt; omega
+        · rcases (p5 y).1 h with h | h | h | h | h
+          · subst h; simp only at hlt ⊢; omega
+          · subst h; simp only at hlt ⊢; omega
+          · subst h; simp only at hlt; omega
+          · obtain ⟨i, _, hi⟩ := sg_mem_fenceList.1 h
+            subst hi; simp only at hlt; omega
+          · exact hold2 y h.1 hlt)
+      generalize pfootAt hc.ents s.h.top = pfX at w3
+      -- its size in the `prev_foot` of the record chunk
+      obtain ⟨t1, t2, t3⟩ := sg_setFoot_tab eS w2
+        (x := { addr := s.h.top + s.h.topsize, size := 48, cin := true, pin := false, pfoot := pfR })
+        ((w3 _).2 (Or.inr ⟨(c3 _).2 (Or.inl rfl), by simp only; omega⟩)) rfl
+      have hE : ∀ z, z ∈ h3a.ents ↔
+          z = { addr := tbase, size := tsize - 80, cin := false, pin := true, pfoot := 0 } ∨
+          z = { addr := tbase + (tsize - 80), size := 80, cin := false, pin := false, pfoot := 0 } ∨
+          z ∈ [({ addr := s.h.top, size := s.h.topsize, cin := false, pin := true, pfoot := pfX } : Ent),
+               { addr := s.h.top + s.h.topsize, size := 48, cin := true, pin := false, pfoot := s.h.topsize },
+               { addr := s.h.top + s.h.topsize + 48, size := 8, cin := true, pin := true, pfoot := 0 },
+               { addr := s.h.top + s.h.topsize + 48 + 8, size := 8, cin := true, pin := true, pfoot := 0 },
+               { addr := s.h.top + s.h.topsize + 48 + 8 + 8, size := 8, cin := true, pin := true, pfoot := 0 }] ∨
+          (z ∈ s.h.ents ∧ (z.addr < s.h.top ∨ g0.base + g0.size ≤ z.addr)) := by
+        intro z
+        rw [t3 z, w3 z, c3 z, p5 z]
+        simp only [sgFenceList, List.mem_cons, List.not_mem_nil, or_false]
+        exact sg_addseg_memA _ z _ _ _ _ _ g0.base _ _ hside hgb (by omega) (by omega) hsz
+      have hfr3 := insert_chunk_frame eIns
+      have hbin3 := insert_chunk_binned eIns
+      have hsb3a : h3a.sbins = s.h.sbins := by rw [t1, w1, c1, p2]
+      have htb3a : h3a.tbins = s.h.tbins := by rw [t1, w1, c1, p2]
+      have hs1segs : s1.segs = g0 :: rest := by rw [p1]; exact hsegs
+      rw [hs1segs] at hs'
+      subst hs'
+      have hents3 : h3.ents = h3a.ents := hfr3.ents
+      have hok3 : entsOk h3.ents = true := by rw [hents3]; exact t2
+      have hE3 := fun z => (show z ∈ h3.ents ↔ z ∈ h3a.ents by rw [hents3]).trans (hE z)
+      have hkeep : ∀ z ∈ s.h.ents, (z.addr < s.h.top ∨ g0.base + g0.size ≤ z.addr) → z ∈ h3a.ents :=
+        fun z hz hc => (hE z).2 (Or.inr (Or.inr (Or.inr ⟨hz, hc⟩)))
+      have hfk := sg_addseg_keep w t2 hfm hfa hfp (by omega) hout hkeep
+      have hx1 : findEnt h3a.ents s.h.top = some { addr := s.h.top, size := s.h.topsize, cin := false, pin := true, pfoot := pfX } := by
+        rw [sg_find_iff t2]
+        exact ⟨(hE _).2 (Or.inr (Or.inr (Or.inl List.mem_cons_self))), rfl⟩
+      have hbins3 := insert_chunk_binsOk eIns (by omega) (by
+          intro a e he
+          obtain ⟨hm, _⟩ := findEnt_some he
+          change e ∈ h3a.ents at hm
+          rcases (hE e).1 hm with h | h | h | h
+          · subst h; simp only [U64]; omega
+          · subst h; simp only [U64]; omega
+          · simp only [List.mem_cons, List.not_mem_nil, or_false] at h
+            rcases h with rfl | rfl | rfl | rfl | rfl <;> simp only [U64] <;> omega
+          · exact sg_entsLt w e.addr e (entsOk_find e h.1 w.ents))
+        (by rw [sizeAt_iff]; exact ⟨_, hx1, rfl⟩)
+        (by
+          refine sbinsOk_frame (h := s.h) w.sbins hsb3a ?_
+          intro a ha
+          have hb : a ∈ binned s.h := List.mem_append.2 (Or.inl ha)
+          exact hfk a (mem_freeList_of_binned hb) (w.binned_free hb).2.1)
+        (by
+          refine tbinsOk_frame (h := s.h) w.tbins htb3a ?_
+          intro a ha
+          have hb : a ∈ binned s.h := List.mem_append.2 (Or.inr ha)
+          exact hfk a (mem_freeList_of_binned hb) (w.binned_free hb).2.1)
+      refine sg_addseg_core hi hsegs hes' hxa hxf hxs hfa hfc hfp hfs hgb hgt hfr hf.page hpos hlim
+        (by have := hf.gran; omega) hsz
+        (X := { addr := tbase, size := tsize - 80, cin := false, pin := true, pfoot := 0 })
+        (F := { addr := tbase + (tsize - 80), size := 80, cin := false, pin := false, pfoot := 0 })
+        rfl rfl rfl rfl rfl rfl rfl rfl (csp := s.h.top + s.h.topsize)
+        (m' := { addr := s.h.top, size := s.h.topsize, cin := false, pin := true, pfoot := pfX })
+        (ms' := [{ addr := s.h.top + s.h.topsize, size := 48, cin := true, pin := false, pfoot := s.h.topsize },
+               { addr := s.h.top + s.h.topsize + 48, size := 8, cin := true, pin := true, pfoot := 0 },
+               { addr := s.h.top + s.h.topsize + 48 + 8, size := 8, cin := true, pin := true, pfoot := 0 },
+               { addr := s.h.top + s.h.topsize + 48 + 8 + 8, size := 8, cin := true, pin := true, pfoot := 0 }])
+        ?wc ?wend ?wlast ?wshape ?whead ?wtags ?wclass ?wfence ?wrec ?wcsp ?wm8 hok3 hE3 rfl ?htop ?htops ?hdv ?hdvs ?hla
+        ?hfl hbins3.1 hbins3.2
+      case wc => simp [contig, Nat.add_assoc]
+      case wend => simp only [endE, lastE]; omega
+      case wlast => simp [lastE]
+      case wshape =>
+        simp only [shapeOk, List.all_cons, List.all_nil, Bool.and_true, Bool.and_eq_true, Bool.or_eq_true,
+          decide_eq_true_eq]
+        refine ⟨Or.inr ⟨⟨by omega, by omega⟩, by omega⟩, Or.inr ⟨⟨by omega, trivial⟩, by omega⟩, ?_⟩
+        simp
+      case whead => exact ⟨by simp [hxp], fun h => by rw [hxp] at h; cases h⟩
+      case wtags =>
+        have htne : s.h.top ≠ tbase := by rw [← hxa]; exact hnew x hxm
+        simp [tagsFrom, linkOk, isFree, htne]
+      case wclass =>
+        intro e he
+        simp only [List.mem_cons, List.not_mem_nil, or_false] at he
+        rcases he with rfl | rfl | rfl | rfl | rfl <;> simp
+        omega
+      case wfence =>
+        intro a ha b hb h8 hadj
+        simp only [List.mem_cons, List.not_mem_nil, or_false] at ha hb
+        rcases ha with rfl | rfl | rfl | rfl | rfl <;> rcases hb with rfl | rfl | rfl | rfl | rfl <;>
+          simp only at h8 hadj ⊢ <;> first | omega | trivial | exact Or.inl trivial
+      case wrec => exact ⟨_, List.mem_cons_of_mem _ List.mem_cons_self, rfl, rfl⟩
+      case wcsp => exact ⟨by omega, by omega⟩
+      case wm8 => simp only; omega
+      case htop => show h3.top = tbase; rw [hfr3.top]; show h3a.top = tbase; rw [t1, w1, c1, p2]
+      case htops => show h3.topsize = tsize - 80; rw [hfr3.topsize]; show h3a.topsize = _; rw [t1, w1, c1, p2]
+      case hdv => show h3.dv = s.h.dv; rw [hfr3.dv]; show h3a.dv = _; rw [t1, w1, c1, p2]
+      case hdvs => show h3.dvsize = s.h.dvsize; rw [hfr3.dvsize]; show h3a.dvsize = _; rw [t1, w1, c1, p2]
+      case hla => show s1.least_addr ≤ tbase ∧ s1.least_addr ≤ s.least_addr; rw [p1]; exact hla0
+      case hfl =>
+        have hb0 : binned (h3a.tag "addseg-oldtop-binned") = binned s.h := binned_congr hsb3a htb3a
+        refine sg_addseg_freeListOk w htn (H := h3) hok3 (by omega) hnew ?_ ?_ (B := [s.h.top])
+          (Or.inr rfl) (by rw [← hb0]; exact hbin3) ?_
+        · rw [hfr3.top]; show h3a.top = tbase; rw [t1, w1, c1, p2]
+        · rw [hfr3.dv]; show h3a.dv = _; rw [t1, w1, c1, p2]
+        · intro a
+          rw [mem_freeSet, mem_freeSet]
+          simp only [List.mem_singleton]
+          constructor
+          · rintro ⟨e, he, hfe, hea⟩
+            rcases (hE3 e).1 he with h | h | h | h
+            · left; rw [← hea, h]
+            · rw [h] at hfe; simp [isFree] at hfe
+            · simp only [List.mem_cons, List.not_mem_nil, or_false] at h
+              rcases h with rfl | rfl | rfl | rfl | rfl
+              · right; left; exact hea.symm
+              all_goals simp [isFree] at hfe
+            · right; right; exact ⟨⟨e, h.1, hfe, hea⟩, by omega⟩
+          · rintro (h | h | ⟨⟨e, he, hfe, hea⟩, hne⟩)
+            · exact ⟨_, (hE3 _).2 (Or.inl rfl), by simp [isFree], h.symm⟩
+            · exact ⟨_, (hE3 _).2 (Or.inr (Or.inr (Or.inl List.mem_cons_self))), by simp [isFree], h.symm⟩
+            · refine ⟨e, (hE3 e).2 (Or.inr (Or.inr (Or.inr ⟨he, ?_⟩))), hfe, hea⟩
+              rcases hout e he with h | h | h | h
+              · exact Or.inl h
+              · omega
+              · subst h; simp [isFree, hfp] at hfe
+              · exact Or.inr h
+
+/-! ## the middle of `sys_alloc`: all branches -/
+
+/-- interface of the `sys-prepend` branch -/
+def sg_prepend_Spec : Prop :=
+  ∀ {s : St} (_ : SInv s) (_ : s.h.top ≠ 0) {tbase tsize nb : Nat} (_ : SgFresh s tbase tsize) (_ : NbOk nb)
+    (_ : nb + 96 ≤ tsize) {sq : Seg} (_ : sq ∈ s.segs) (_ : sq.base = tbase + tsize)
+    {q0 : List OsDir} {ev0 : List OsEv} {fp0 mf0 la0 : Nat} (_ : la0 ≤ tbase ∧ la0 ≤ s.least_addr) {s' : St} {mem : Nat},
+    prepend_alloc (St.tag { s with osq := q0, evs := ev0, footprint := fp0, maxfp := mf0, least_addr := la0, segs := replaceSeg s.segs sq { sq with base := tbase, size := sq.size + tsize } }
+        "sys-prepend") tbase sq.base nb = .ok (s', mem) →
+    SInv s' ∧ mem ≠ 0 ∧ Alloc s s' nb mem
+
+theorem sg_place_of_prepend (hpre : sg_prepend_Spec) : sg_place_Spec := by
+  intro s s0 hi hp tbase tsize nb hf hnb hsz r h
+  by_cases ht0 : s.h.top = 0
+  · obtain ⟨s1, hr, h1, h2⟩ := sg_place_init hi hp hf (by omega) ht0 h
+    subst hr
+    exact ⟨h1, h2⟩
+  · obtain ⟨q0, ev0, fp0, mf0, rfl⟩ := hp
+    unfold sys_alloc_place at h
+    dsimp only at h
+    rw [if_neg ht0] at h
+    split at h
+    · -- sys-extend
+      rename_i sp hext
+      have hsp : sp ∈ s.segs ∧ sp.top = tbase ∧ sp.holds s.h.top = true := by
+        split at hext
+        · rename_i sp' hfnd
+          split at hext
+          · rename_i hh
+            injection hext with hext; subst hext
+            have := List.find?_some hfnd
+            simp only [decide_eq_true_eq] at this
+            exact ⟨find?_mem hfnd, this, hh⟩
+          · cases hext
+        · cases hext
+      msimp at h
+      obtain ⟨s3, hinit, h⟩ := h
+      subst h
+      obtain ⟨i1, u1⟩ := sg_extend hi hf (by omega) hsp.1 hsp.2.1 hsp.2.2 hinit
+      exact ⟨sg_sinv_tag i1 _, sg_sameUsers_trans u1 (sg_sameUsers_tag _ _)⟩
+    · split at h
+      · -- sys-prepend
+        rename_i sq hfnd
+        have hsq : sq ∈ s.segs := find?_mem hfnd
+        have hsqb : sq.base = tbase + tsize := by
+          have := List.find?_some hfnd
+          simpa using this
+        msimp at h
+        obtain ⟨⟨s2, m⟩, hpa, h⟩ := h
+        subst h
+        exact hpre hi ht0 hf hnb hsz hsq hsqb (la0 := min tbase s.least_addr) ⟨Nat.min_le_left _ _, Nat.min_le_right _ _⟩ hpa
+      · -- sys-addseg
+        msimp at h
+        obtain ⟨s2, ha, h⟩ := h
+        subst h
+        obtain ⟨i1, u1⟩ := sg_add_segment hi ht0 hf (by omega) (la0 := min tbase s.least_addr)
+          ⟨Nat.min_le_left _ _, Nat.min_le_right _ _⟩ ha
+        exact ⟨sg_sinv_tag i1 _, sg_sameUsers_trans u1 (sg_sameUsers_tag _ _)⟩
+
+/-- **`sys_alloc`**, given the `sys-prepend` branch -/
+theorem sg_sys_alloc_of_prepend (hpre : sg_prepend_Spec) : sys_alloc_Spec :=
+  sg_sys_alloc_of_place (sg_place_of_prepend hpre)
 
 end TinyVerif.Dl
